@@ -619,6 +619,21 @@ def _kv(repo, res, bl):
     n_cases += 1
     if not (kind == "return" and me.attrs.get("_theta") == {"b": vals[0]}):
         bad.append("single target ['b'] -> %s" % me.attrs.get("_theta"))
+    # a single target given as a variable object is bound under its name; two values for one target are refused
+    summ1 = dict(summ)
+    summ1["str"] = lambda v: v.attrs["ID"] if isinstance(v, Obj) and v.cls == "ODEVariable" else str(v)
+    me = Obj("Loss", _num_param=3, _targetParam=[Obj("ODEVariable", ID="b", name="b", __str__="b")])
+    kind, _ = Abs({}, types, summ1, me).run_function(sp.node, {"theta": [vals[1]]})
+    n_cases += 1
+    got1 = me.attrs.get("_theta")
+    if not (kind == "return" and isinstance(got1, dict) and len(got1) == 1 and list(got1.values()) == [vals[1]]
+            and (list(got1)[0] == "b" or (isinstance(list(got1)[0], Obj) and list(got1)[0].attrs.get("ID") == "b"))):
+        bad.append("single target given as a variable object -> %s" % (got1,))
+    me = Obj("Loss", _num_param=3, _targetParam=["b"])
+    kind, _ = Abs({}, types, summ, me).run_function(sp.node, {"theta": [vals[0], vals[1]]})
+    n_cases += 1
+    if kind != "raise":
+        bad.append("2 values for the single target ['b'] accepted -> %s" % me.attrs.get("_theta"))
     me = Obj("Loss", _num_param=3, _targetParam=None)
     kind, _ = Abs({}, types, summ, me).run_function(sp.node, {"theta": list(vals)})
     n_cases += 1
@@ -639,6 +654,10 @@ def _kv(repo, res, bl):
         ("all,all", None, None, th, {"setParam": [th[:2]], "setX0": [th[2:]]}),
         ("all params, 2 target states", None, ["S", "R"], th[:2] + th[2:4], {"setParam": [th[:2]], "unrollState": [th[2:4]]}),
         ("no params given, 2 target states", None, ["S", "R"], th[2:4], {"unrollState": [th[2:4]]}),
+        # as many target states as there are parameters would make a slice counted from the front look like one counted from the back
+        ("all params, 1 target state", None, ["R"], th[:2] + [th[2]], {"setParam": [th[:2]], "unrollState": [[th[2]]]}),
+        ("all params, 3 target states", None, ["R", "S", "I"], th[:2] + th[2:5], {"setParam": [th[:2]], "unrollState": [th[2:5]]}),
+        ("2 target params, 1 target state", ["b", "a"], ["I"], [th[1], th[0], th[3]], {"unrollParam": [[th[1], th[0]]], "unrollState": [[th[3]]]}),
         ("1 target param, all states", ["b"], None, [th[0]] + th[2:], {"unrollParam": [[th[0]]], "setX0": [th[2:]]}),
         ("target param subset = all params length, all states", ["a", "b"], None, th, {"setParam": [th[:2]], "setX0": [th[2:]]}),
         ("1 target param, 2 target states", ["b"], ["R", "S"], [th[1], th[2], th[3]], {"unrollParam": [[th[1]]], "unrollState": [[th[2], th[3]]]}),
